@@ -36,23 +36,39 @@ type TableHeader struct {
 	SectionLength          uint16
 }
 
+// PointerField returns the pointer field of the psi, 0 if the psi is empty
 func PointerField(psi []byte) uint8 {
+	if len(psi) == 0 {
+		return 0
+	}
 	return psi[0]
 }
 
-// TableID returns the psi table header table id
+// TableID returns the psi table header table id, 0 if the psi is too short to contain it
 func TableID(psi []byte) uint8 {
-	return tableID(psi[1+PointerField(psi):])
+	offset := 1 + int(PointerField(psi))
+	if offset >= len(psi) {
+		return 0
+	}
+	return tableID(psi[offset:])
 }
 
 // SectionSyntaxIndicator returns true if the psi contains section syntax
 func SectionSyntaxIndicator(psi []byte) bool {
-	return sectionSyntaxIndicator(psi[1+PointerField(psi):])
+	offset := 1 + int(PointerField(psi))
+	if offset+1 >= len(psi) {
+		return false
+	}
+	return sectionSyntaxIndicator(psi[offset:])
 }
 
 // PrivateIndicator returns true if the psi contains private data
 func PrivateIndicator(psi []byte) bool {
-	return psi[2+PointerField(psi)]&0x40 != 0
+	offset := 2 + int(PointerField(psi))
+	if offset >= len(psi) {
+		return false
+	}
+	return psi[offset]&0x40 != 0
 }
 
 // SectionLength returns the psi section length
@@ -86,6 +102,9 @@ func sectionSyntaxIndicator(psi []byte) bool {
 
 // sectionLength returns the length of a single psi section
 func sectionLength(psi []byte) uint16 {
+	if len(psi) < 3 {
+		return 0
+	}
 	return uint16(psi[1]&3)<<8 | uint16(psi[2])
 }
 
